@@ -104,7 +104,7 @@ class ZConfigParser:
             self.error(e.message)
 
         if isempty:
-            self.context.endSection(section, type_, name, newsect)
+            self._end_section(section, type_, name, newsect)
             return section
 
         self.stack.append((type_, name, section))
@@ -117,6 +117,10 @@ class ZConfigParser:
         opentype, name, prevsection = self.stack.pop()
         if type_ != opentype:
             self.error("unbalanced section end")
+        self._end_section(prevsection, type_, name, section)
+        return prevsection
+
+    def _end_section(self, prevsection, type_, name, section):
         try:
             self.context.endSection(
                 prevsection, type_, name, section)
@@ -128,7 +132,6 @@ class ZConfigParser:
             raise
         except ZConfig.ConfigurationError as e:
             self.error(e.message)
-        return prevsection
 
     def handle_key_value(self, section, rest):
         m = _keyvalue_rx.match(rest)
